@@ -1,4 +1,5 @@
 import MalVerif.Py.TieLang
+import MalVerif.Py.TieLangVars
 import MalVerif.Props.C03
 /-!
 # C03 for the *translated* Python — step inheritance: override / extend, and the lookup is pure
@@ -16,7 +17,7 @@ value, `absAnswer s' acc` the value of an answer `acc` (a dict name ↦ step-dic
 recursion fuel `pyFuelL s`.
 -/
 namespace MalVerif.PropsGen.C03
-open MalVerif MalVerif.Py MalVerif.Py.LSpec MalVerif.Py.GenLang MalVerif.Py.TieLang
+open MalVerif MalVerif.Py MalVerif.Py.LSpec MalVerif.Py.GenLang MalVerif.Py.TieLang MalVerif.Py.TieLangVars
 
 /-- the `extends` walk from `t` ends (no cycle above `t`) in the specification held by `s` -/
 abbrev NoCycleAbove (s : LS) (t : String) : Prop :=
@@ -293,5 +294,51 @@ theorem aliasing_variant_violates_frame :
           (fun r' => (r'.1.exprL[0]?).map (·.map exprOfPy)))) =
       some (some [Expr.step "a", Expr.step "b", Expr.step "b"]) := by
   refine ⟨by decide, by decide, by decide⟩
+
+/-! ## Part 7 — the variable lookup (`_get_variable_for_asset_type_by_name`, the sibling recursion over `superAsset`)
+
+The step-expression evaluator of C01 calls it through its `lang_graph` argument (`EvalEnv`, assumed there to behave
+like `Lang.lookupVar`); here that behaviour is a theorem about the translated source. -/
+
+/-- the call `self._get_variable_for_asset_type_by_name(t, v)` -/
+abbrev lookupVariable (s : LS) (t v : String) : Except PyErr PyVarObj :=
+  lg__get_variable_for_asset_type_by_name (pyFuelL s) s t v
+
+/-- without an `extends` cycle above `t`: the translated lookup returns a step-expression dictionary whose value is
+the first definition of `v` on `t` or an ancestor (`Lang.lookupVar`), and raises `LanguageGraphException` exactly when
+there is none (in particular for an unknown asset type); it reads the heap only -/
+theorem lookupVariable_is_lookupVar (s : LS) (t v : String) (hok : NoCycleAbove s t) :
+    match (absLang s).lookupVar t v with
+    | some d => ∃ e, lookupVariable s t v = .ok (.expr e) ∧ exprOfPy e = d
+    | none => lookupVariable s t v = .error .languageGraphException := by
+  have hok' : (absLang s).chainOK (pyFuelL s) t = true := by
+    unfold pyFuelL; rw [← absLang_assets_length]; exact hok
+  have h1 := get_variable_tie s (pyFuelL s) t v hok'
+  have h2 := rawVar_chain s (pyFuelL s) t v
+  have h3 : (absLang s).lookupVar t v = (rawVar s (pyFuelL s) t v).map exprOfPy := by
+    rw [h2]; unfold Lang.lookupVar pyFuelL; rw [absLang_assets_length]
+  rw [h3]
+  unfold lookupVariable
+  rw [h1]
+  cases rawVar s (pyFuelL s) t v with
+  | none => rfl
+  | some e => exact ⟨e, rfl, rfl⟩
+
+/-- `P` declares `hs = hosts`, `C extends P` declares `own = x.y`, `G extends C` redeclares `hs = other` -/
+def varHeap : LS := loadPy { assets := [
+  { name := "P", variables := [("hs", .field "hosts")] },
+  { name := "C", superAsset := some "P", variables := [("own", .collect (.field "x") (.field "y"))] },
+  { name := "G", superAsset := some "C", variables := [("hs", .field "other")] }] }
+
+example : ∀ t ∈ ["P", "C", "G", "nope"], NoCycleAbove varHeap t := by decide
+/-- inherited, own, shadowed, missing, unknown type -/
+example :
+    [("C", "hs"), ("C", "own"), ("G", "hs"), ("P", "own"), ("nope", "hs")].map
+      (fun q => match lookupVariable varHeap q.1 q.2 with
+        | .ok (.expr e) => some (exprOfPy e)
+        | _ => none) =
+    [some (.field "hosts"), some (.collect (.field "x") (.field "y")), some (.field "other"), none, none] := by decide
+example : errOf (lookupVariable varHeap "P" "own") = some .languageGraphException := by decide
+example : errOf (lookupVariable varHeap "nope" "hs") = some .languageGraphException := by decide
 
 end MalVerif.PropsGen.C03
